@@ -3,6 +3,7 @@ import PyrexVerif.Proofs.NoiseInterp
 import PyrexVerif.Proofs.NoiseOrtho
 import PyrexVerif.Proofs.NoisePhase
 import PyrexVerif.Proofs.NoiseCollision
+import PyrexVerif.Proofs.NoisePeriodIff
 import PyrexVerif.Proofs.NoiseHermitian
 import PyrexVerif.Proofs.NoiseOrthoCont
 /-!
@@ -176,6 +177,24 @@ theorem C17_fft_period_unrepaired_witness (N : FFTNoise) (hn : 2 ≤ N.nAll) (hd
     (by simp [FFTNoise.gridValues])]
   have hlt : N.nAll - 1 < N.nAll := by omega
   simp [FFTNoise.gridValues, List.getD_eq_getElem?_getD, hlt]
+
+/-- exactly which periods are consistent with the grid (`GridConsistent`: for every data list and
+every integer `i`, the interpolant at `t_0 + i·dt` is grid value `i mod n`): those with
+`n·dt = q·P` for a positive integer `q` coprime to `n`.  Failure witnesses for every other `P > 0`
+are explicit: with the unit impulse at sample 0 as data, sample `n` does not read 1 unless `n·dt`
+is a whole number `q` of periods, and if `q` shares a factor `d` with `n`, samples 0 and `n/d`
+collide mod `P` and cannot read 1 and 0. -/
+theorem C17_fft_period_iff (P t0 dt : ℝ) (hP : 0 < P) (hdt : 0 < dt) (n : Nat) (hn : 2 ≤ n) :
+    GridConsistent P t0 dt n ↔ ∃ q : Nat, 0 < q ∧ Nat.Coprime q n ∧ (n : ℝ) * dt = (q : ℝ) * P :=
+  period_iff P t0 dt hP hdt n hn
+
+/-- among the periods that do not fold the generated trace onto itself (`P ≥ (n−1)·dt`, its span)
+the interpolation is consistent at every grid time of every period **iff** `P = n·dt` — the value
+the repaired source uses (`length + dt`); the unrepaired `length = (n−1)·dt` is not -/
+theorem C17_fft_period_unique (P t0 dt : ℝ) (hP : 0 < P) (hdt : 0 < dt) (n : Nat) (hn : 2 ≤ n)
+    (hspan : ((n : ℝ) - 1) * dt ≤ P) :
+    GridConsistent P t0 dt n ↔ P = (n : ℝ) * dt :=
+  period_unique P t0 dt hP hdt n hn hspan
 
 /-- `irfft` as modelled (one-sided weighted form) is the real part of the inverse DFT of the
 Hermitian completion of the one-sided spectrum — the specification of `scipy.fft.irfft` -/
